@@ -83,8 +83,11 @@ class Environment(object):
 
     def run(self):
         with self.prepare_lock:
-            if self.prepare_thread:
-                self.prepare_thread.join()
+            # the starter thread clears the handle itself, without the lock:
+            # read it once so that it cannot turn into None between test and join
+            thread = self.prepare_thread
+            if thread:
+                thread.join()
 
             if not hasattr(self, 'conn'):
                 self._run()
